@@ -103,7 +103,7 @@ Definition parse_dev (s : bytes) : option (N * N * N) :=
     if Ascii.eqb t (nb 99) || Ascii.eqb t (nb 98) then
       match split c_colon r with
       | [a; b] =>
-        match parse_uint 4294967295 a, parse_uint 255 b with
+        match parse_uint 4294967295 a, parse_uint 4294967295 b with
         | Some mj, Some mn => Some (bn t, mj, mn)
         | _, _ => None
         end
